@@ -506,6 +506,7 @@ func perrClass(e error) string {
 		{"invalid range expression (unexpected", "PK_RangeBrace"},
 		{"invalid range expression", "PK_InvalidRange"},
 		{"invalid syntax in set expression", "PK_SetSyntax"},
+		{"invalid syntax in map expression", "PK_MapSyntax"},
 		{"invalid attribute expression", "PK_InvalidAttr"},
 		{"expected an identifier after", "PK_ExpectedIdentAfter"},
 		{"invalid send statement channel", "PK_SendChannel"},
